@@ -34,7 +34,8 @@ def symlen(x):
 
 def symint(x, *a):
     if isinstance(x, S):
-        if x.e.is_integer:
+        import sympy as sp
+        if x.e.is_integer or isinstance(x.e, (sp.floor, sp.ceiling)):
             return x
         raise sym.Unsupported('int() of non-integer symbolic value')
     return builtins.int(x, *a)
@@ -54,7 +55,30 @@ def symabs(x):
     return builtins.abs(x)
 
 
+class SymRange(object):
+    """range(n) with symbolic n: iterating yields ONE generic index g (0 <= g < n is added to the path condition); the loop or
+    comprehension body is thus executed once for an arbitrary iteration.  Only sound for bodies that treat iterations
+    independently (comprehensions building a sequence element-wise); np.array of the one-element result is the sequence."""
+
+    def __init__(self, n):
+        self.n = n
+
+    def __iter__(self):
+        import sympy as sp
+        g = sym.fidx('g')
+        tensor.GENERIC[g] = self.n
+        sym.assume(sp.And(g >= 0, g < self.n))
+        yield S(g)
+
+    def __len__(self):
+        raise sym.Unsupported('len() of a symbolic range')
+
+
 def symrange(*a):
+    if len(a) == 1 and isinstance(a[0], S) and not a[0].e.is_Integer:
+        if sym.decide(a[0].e <= 0):
+            return builtins.range(0)
+        return SymRange(a[0].e)
     if any(isinstance(x, S) and not x.e.is_Integer for x in a):
         raise sym.Unsupported('range() over a symbolic bound')
     return builtins.range(*[builtins.int(w(x)) if isinstance(x, S) else x for x in a])
